@@ -103,6 +103,7 @@ class Engine:
         self.notes = []         # free-form records of the current path (harness use)
         self.seed = 0
         self.const_hash = False
+        self.concretize_div = 0      # > 0: fork integer/integer true divisions whose operand intervals are at most this wide
         self.incremental = False   # one push/pop solver per path instead of a fresh solver per query
         self._inc = None
         self._inc_n = 0
@@ -786,6 +787,14 @@ class SNum(Sym):
         return SNum(z3.simplify(t), dt)
 
     def _bin(self, o, f, rev=False):
+        if isinstance(o, builtins.float) and (o != o or o in (_INF, -_INF)):
+            c = self.concrete()
+            if c is not None:
+                x, y = (o, builtins.float(c)) if rev else (builtins.float(c), o)
+                return f(x, y)
+            if o != o:
+                return o
+            raise Unsupported("arithmetic of a symbolic value with an infinite constant")
         o = self._coerce(o)
         if o is None:
             return NotImplemented
@@ -807,6 +816,13 @@ class SNum(Sym):
     def __rmul__(self, o): return self._bin(o, lambda a, b: a * b, True)
 
     def _div(self, o, rev=False):
+        if isinstance(o, builtins.float) and (o != o or o in (_INF, -_INF)):
+            c = self.concrete()
+            if o != o:
+                return o
+            if c is not None and c != 0:
+                return (o / builtins.float(c)) if rev else 0.0 * (1 if (c > 0) == (o > 0) else -1)
+            raise Unsupported("division involving an infinite constant")
         o = self._coerce(o)
         if o is None:
             return NotImplemented
@@ -819,6 +835,14 @@ class SNum(Sym):
             if SBool(a.t == 0):
                 return builtins.float("nan")
             return builtins.float("inf") if SBool(a.t > 0) else -builtins.float("inf")
+        if ENG.concretize_div and a.t.sort() == INT and b.t.sort() == INT:
+            # quotient of two bounded integer counts: fork over the feasible (numerator, denominator) values so that
+            # every score is a concrete rational on the path and all later comparisons are decided without NIA
+            ia, ib = interval(a.t), interval(b.t)
+            if ia is not None and ib is not None and ia[1] - ia[0] <= ENG.concretize_div and ib[1] - ib[0] <= ENG.concretize_div:
+                bv = ENG.concretize(b.t, ib[0], ib[1])
+                av = ENG.concretize(a.t, ia[0], ia[1])
+                return SNum(z3.RealVal(Fraction(av, bv)), None if not numpyish else "float64")
         t = to_real(a.t) / to_real(b.t)
         return SNum(z3.simplify(t), None if not numpyish else "float64")
 
